@@ -131,7 +131,8 @@ class Prop(BaseProp):
     # ---------------------------------------------------------------------------------------------
     def gen_matrix(self, rng, ty, n, kind):
         """-> list of n*n values (row-major).  kind: 'dominant' (diagonally dominant, rows permuted), 'symmetric' (separated eigenvalues),
-        'singular' (an all-zero pivot column in the real part), 'diag-real' (symmetric, real part diagonal, derivative parts full)"""
+        'singular' (an all-zero pivot column in the real part), 'diag-real' (symmetric, real part diagonal, derivative parts full),
+        'near-diag' (the same with negligible non-zero off-diagonal real parts)"""
         leafd = lambda r: r.choice([r.uniform(-2, 2), r.uniform(-2, 2), 0.0, 1.0, -0.5])
         vals = [[None] * n for _ in range(n)]
         perm = list(range(n))
@@ -150,14 +151,20 @@ class Prop(BaseProp):
                     vals[i][j] = genvals.gen_value(rng, ty, leafd, re_leaf=lambda r, re=re: re)
         if kind == 'dominant':
             vals = [vals[perm[i]] for i in range(n)]
-        if kind in ('symmetric', 'diag-real'):
+        if kind in ('symmetric', 'diag-real', 'near-diag'):
             diag = [1.0 + 1.5 * perm[i] + rng.uniform(-0.2, 0.2) for i in range(n)]
             for i in range(n):
                 for j in range(i, n):
                     if i == j:
                         re = diag[i]
                     else:
-                        re = 0.0 if kind == 'diag-real' else rng.uniform(-0.2, 0.2)
+                        if kind == 'diag-real':
+                            re = 0.0
+                        elif kind == 'near-diag':
+                            # negligible but non-zero: the shortcut branch of the rotation (t = a_pq / (d_q - d_p)) is taken from the first sweep on
+                            re = rng.choice([1.0, -1.0]) * rng.uniform(1.0, 4.0) * 1e-19
+                        else:
+                            re = rng.uniform(-0.2, 0.2)
                     v = genvals.gen_value(rng, ty, leafd, re_leaf=lambda r, re=re: re, presence=True)
                     vals[i][j] = v
                     vals[j][i] = v
@@ -179,6 +186,8 @@ class Prop(BaseProp):
             c = {'id': 'c%d' % len(out), 'op': op, 'type': ty.hname, 'n': size, 'tag': 'dominant'}
             if op in ('jacobi', 'smallest_ev', 'na_eigen'):
                 c['tag'] = 'diag-real' if (op == 'jacobi' and rng.below(8) == 0 and size > 1 and not ty.is_float) else 'symmetric'
+                if c['tag'] == 'symmetric' and op in ('jacobi', 'smallest_ev') and size > 1 and rng.below(4) == 0:
+                    c['tag'] = 'near-diag'     # real part diagonal up to negligible non-zero entries, diagonal in random order, derivative parts full
                 c['vals'] = self.gen_matrix(rng, ty, size, c['tag'])
             elif op == 'norm':
                 c['vals'] = [genvals.gen_value(rng, ty, genvals.leaf_rand, re_leaf=lambda r: r.uniform(-3, 3)) for _ in range(size)]
@@ -468,6 +477,14 @@ class Prop(BaseProp):
             return False
         if 'tag' in m and c.get('tag') not in m['tag']:
             return False
+        if c.get('tag') == 'near-diag' and 'near_diag_min_part_order' in m:
+            # negligible non-zero off-diagonal real parts: only the parts of order >= 2 belong to the finding (the first-order parts are exact)
+            try:
+                blk = eval((v.detail or {}).get('block', '()'), {'__builtins__': {}})
+            except Exception:
+                return False
+            if not isinstance(blk, tuple) or len(blk) < m['near_diag_min_part_order']:
+                return False
         return True
 
     def step_search(self):
@@ -476,7 +493,7 @@ class Prop(BaseProp):
     def rule_text(self):
         return ('sizes 1..6 (1..4 for third-order / nested scalars) x {LU solve, determinant, inverse, norm, Jacobi eigen-decomposition, smallest_ev of the crate; '
                 'solve, try_inverse, determinant, symmetric_eigen of nalgebra on the four field-compatible types}; matrices: diagonally dominant with randomly '
-                'permuted rows (every pivoting path), symmetric with separated eigenvalues, symmetric with a diagonal real part and full derivative parts, and '
+                'permuted rows (every pivoting path), symmetric with separated eigenvalues, symmetric with a diagonal real part (exactly, or up to negligible non-zero entries) and full derivative parts, and '
                 'matrices with an all-zero pivot column in the real part; entries with arbitrary derivative parts.  Correspondence: the hand model Hand/LinAlg.v '
                 '(LU, solve, determinant, inverse, norm) evaluated in Coq on binary64 must equal the implementation bit for bit.  Oracle: the defining identities '
                 'A x = b, A A^-1 = I, det vs 60-digit elimination on jets (Jacobi formula), A V = V diag(lambda), V^T V = I, ascending lambda, in every part, within '
